@@ -1003,6 +1003,7 @@ pub fn run_c05(ctx: &Ctx) -> i32 {
         report.inconclusive(&format!("streams not exercised: {missing:?}"));
     }
     report.extra.insert("depth".into(), json!(depth));
+    crate::also_in_release_build(&mut report, "C05", ctx);
     report.finish()
 }
 
@@ -1253,5 +1254,6 @@ pub fn run_c06(ctx: &Ctx) -> i32 {
     }
     c06_ack_sweep(ctx, &mut report, &schema);
     report.extra.insert("depth".into(), json!(depth));
+    crate::also_in_release_build(&mut report, "C06", ctx);
     report.finish()
 }
